@@ -346,7 +346,10 @@ func init() {
 	}
 	models["(*bufio.Reader).Read"] = func(e *Exec, st *State, fr *Frame, fn *ssa.Function, args []Value, pos token.Pos) []Outcome {
 		recv := &IfaceV{Tid: IntConst(1), Ref: streamRef(args[0])}
-		outs, _ := e.readModel(st, fr, recv, args[1].(*SliceV), pos, false) // bufio hands out buffered data first, the error on the next call
+		// a request at least as large as the reader's buffer is passed straight to the underlying reader, whose byte
+		// count and error come back together (bufio.Reader.Read: `n, b.err = b.rd.Read(p); return n, b.readErr()`), so
+		// like any io.Reader it may deliver its last bytes together with the terminal error
+		outs, _ := e.readModel(st, fr, recv, args[1].(*SliceV), pos, true)
 		return outs
 	}
 	models["(*bufio.Writer).Flush"] = func(e *Exec, st *State, fr *Frame, fn *ssa.Function, args []Value, pos token.Pos) []Outcome {
